@@ -265,10 +265,13 @@ package kv
 //@ ensures old(ghost(remaining, recv)) > 0 ==> ghost(remaining, recv) == old(ghost(remaining, recv)) - 1
 //@ ensures old(ghost(remaining, recv)) <= 0 ==> ghost(remaining, recv) == old(ghost(remaining, recv))
 
+// The key under the cursor is a function of the iterator and of how many entries remain.
+//@ ghostfun itKeyAt(KeyValueIterator, int) string
+
 //@ func KeyValueIterator.Key
 //@ trusted
 //@ pure
-//@ nondet
+//@ ensures result == itKeyAt(recv, ghost(remaining, recv))
 
 //@ func KeyValueIterator.Value
 //@ trusted
@@ -284,14 +287,20 @@ package kv
 // function, which is how it is used).
 //@ ghostfun rangeCount(WriteBatch, string, string) int
 
+// rangeKeyAt names the j-th key (from 0) that scan delivers.
+//@ ghostfun rangeKeyAt(WriteBatch, string, string, int) string
+
 //@ func WriteBatch.RangeScan(recv, lowerBound, upperBound) (it, err)
 //@ trusted
 //@ modifies nothing
 //@ ensures err == nil ==> it != nil && fresh(it) && ghost(remaining, it) >= 0 && ghost(remaining, it) == rangeCount(recv, lowerBound, upperBound)
+//@ ensures err == nil ==> forall r int :: itKeyAt(it, r) == rangeKeyAt(recv, lowerBound, upperBound, rangeCount(recv, lowerBound, upperBound) - r)
 
-//@ func WriteBatch.DeleteRange
+//@ func WriteBatch.DeleteRange(recv, lowerBound, upperBound) (err)
 //@ trusted
 //@ modifies ghset(present, recv), ghset(deleted, recv)
+//@ ensures err == nil ==> forall j int :: 0 <= j && j < rangeCount(recv, lowerBound, upperBound) ==> ghset(deleted, recv, rangeKeyAt(recv, lowerBound, upperBound, j))
+//@ note trusted: a Pebble range tombstone over [lowerBound, upperBound) covers every key a scan of the same bounds delivers
 
 //@ func UpdateOperationCallback.OnDeleteWithEntry(recv, batch, key, value) (err)
 //@ trusted
@@ -312,17 +321,22 @@ package kv
 
 // applyDeleteRange: the delete callback (which removes secondary-index entries and
 // session shadows) runs once for every record in the range — the scan stops early only
-// on an error — whichever way the records themselves are then deleted.
+// on an error — and every key the scan delivered is then deleted in the batch, one by
+// one up to DeleteRangeThreshold keys and by a single range tombstone above it.
 //
 //@ func db.applyDeleteRange(d, batch, notifications, delReq, updateOperationCallback) (res, err)
-//@ property C15 C12 C13
+//@ property C15 C12 C13 C14
 //@ requires batch != nil && delReq != nil && updateOperationCallback != nil && d.log != nil && (notifications != nil ==> nbOk(notifications))
 //@ loop 0 modifies ghost(remaining, it), ghost(deleteCallbacks, updateOperationCallback), ghset(present, batch), ghset(deleted, batch), fields(proto.StorageEntry), fresh
 //@ loop 0 invariant (validKeys == nil || fresh(validKeys)) && fresh(it)
 //@ loop 0 invariant it != nil && ghost(remaining, it) >= 0 && ghost(deleteCallbacks, updateOperationCallback) + ghost(remaining, it) == old(ghost(deleteCallbacks, updateOperationCallback)) + rangeCount(batch, delReq.StartInclusive, delReq.EndExclusive)
+//@ loop 0 invariant validKeysNum + ghost(remaining, it) == rangeCount(batch, delReq.StartInclusive, delReq.EndExclusive) && len(validKeys) == ite(validKeysNum <= DeleteRangeThreshold, validKeysNum, DeleteRangeThreshold)
+//@ loop 0 invariant forall j int :: 0 <= j && j < len(validKeys) ==> validKeys[j] == rangeKeyAt(batch, delReq.StartInclusive, delReq.EndExclusive, j)
 //@ loop 1 modifies ghset(present, batch), ghset(deleted, batch), fresh
 //@ loop 1 invariant ghost(deleteCallbacks, updateOperationCallback) == old(ghost(deleteCallbacks, updateOperationCallback)) + rangeCount(batch, delReq.StartInclusive, delReq.EndExclusive)
+//@ loop 1 invariant forall j int :: 0 <= j && j <= rangeindex ==> ghset(deleted, batch, rangeKeyAt(batch, delReq.StartInclusive, delReq.EndExclusive, j))
 //@ ensures err == nil ==> ghost(deleteCallbacks, updateOperationCallback) == old(ghost(deleteCallbacks, updateOperationCallback)) + rangeCount(batch, delReq.StartInclusive, delReq.EndExclusive)
+//@ ensures err == nil ==> forall j int :: 0 <= j && j < rangeCount(batch, delReq.StartInclusive, delReq.EndExclusive) ==> ghset(deleted, batch, rangeKeyAt(batch, delReq.StartInclusive, delReq.EndExclusive, j))
 //@ modifies ghset(present, batch), ghset(deleted, batch), ghost(deleteCallbacks, updateOperationCallback), fields(proto.StorageEntry), fields(map[string]*proto.Notification)
 
 //@ func notifications.Deleted(n, key)
